@@ -77,7 +77,7 @@ class ComputeInstanceArea(Contract):
 @contract
 class ComputeOks(Contract):
     target = "sleap_nn.evaluation.compute_oks"
-    props = ("C15", "C10", "C16")
+    props = ("C15", "C16")
     level = "property"
     cases = ("N1-area-coco", "N2-area-coco", "N2-scale-coco", "N2-area-paper", "N2-scale-paper")
     thorough_cases = cases + ("N3-area-coco", "N3-scale-paper", "N4-area-coco")
